@@ -6,8 +6,8 @@ import re
 import framework
 from framework import REPO, ROOT
 
-TIE = ["Nsq.Tie.Life", "Nsq.Tie.TopicDelete"]
-PROPS = ["Nsq.Props.C08", "Nsq.Props.C08TopicDelete"]
+TIE = ["Nsq.Tie.Life", "Nsq.Tie.TopicDelete", "Nsq.Tie.ChanDelete"]
+PROPS = ["Nsq.Props.C08", "Nsq.Props.C08TopicDelete", "Nsq.Props.C08ChanDelete"]
 HARNESS = ["e5/replay_test.go", "e5/life_test.go", "e5/inflight_test.go", "e5/conc_test.go", "e5/pairs_test.go"]
 
 # hook schedules exhibited in Lean (Props/C08.lean) and replayed on the real code
@@ -173,6 +173,9 @@ TOPIC_DELETE = [
     ("topic_delete_races_sub_early", "zombie_consumer", "topic-delete-races-sub-zombie-consumer:early", None),
     ("topic_delete_races_create_channel", "files_or_meta", "topic-delete-races-create-channel-leaves-state", None),
     ("topic_double_delete_unlinks_fresh", "older_delete_hit_fresh_topic", "topic-double-delete-unlinks-fresh-topic", "ownUnlink"),
+    # channel level (Model/ChanDelete.lean, round 7)
+    ("chan_double_delete_unlinks_fresh", "older_delete_hit_fresh_channel", "channel-double-delete-unlinks-fresh-channel", "chanOwnUnlink"),
+    ("chan_double_delete_waits", "wrong", "channel-double-delete-overtakes-running-exit", None),
 ]
 
 
@@ -186,7 +189,8 @@ def topic_delete_shape(ctx):
         m = re.search(r"def %s : List String := \[(.*?)\]\n" % name, txt, re.S)
         return re.findall(r'"((?:[^"\\]|\\.)*)"', m.group(1)) if m else []
     shape = {"subGuard": fact("subGuard") == ["if (channel.ephemeral && channel.Exiting()) || topic.Exiting()"],
-             "ownUnlink": fact("deleteTopicStmts") == ["if err == errExiting", "if n.topicMap[topicName] == topic"]}
+             "ownUnlink": fact("deleteTopicStmts") == ["if err == errExiting", "if n.topicMap[topicName] == topic"],
+             "chanOwnUnlink": fact("deleteChanStmts") == ["if t.channelMap[channelName] == channel"]}
     ctx.corr["topic_delete_model_of_tree"] = shape
     return shape
 
